@@ -42,7 +42,7 @@ LEVEL_TEXT = (
     "accepting exit - otherwise the node's type says u16 while its literals are still lowered as 32-bit values and the circuit has "
     "the wrong output width; (S3) the builder receives the collected input parties, and build() is given exactly the wires "
     "returned by the function body. The 161 panic bits are C02-P5, the literal layout is C09, the join row widths are C13-J6."
-    " Also decided since the hunter rounds: the number type stored in a Range node follows re-typing (S12); the one-node re-typers are only the leaf case of constrain_type (S13); inside a collection an unspecified number type is re-typed in place only to a 32-bit type (S14); no division by a type width or element count and no trapping `count - c` in the lowering (S15); a function without any input bit is refused before the circuit is built (S16); a re-typed match / if / array literal adopts its branches' / elements' type only when they all agree (S17); an untyped range can be re-typed for signed as well as unsigned element types (S18).")
+    " Also decided since the hunter rounds: the number type stored in a Range node follows re-typing (S12); the one-node re-typers are only the leaf case of constrain_type (S13); inside a collection an unspecified number type is re-typed in place only to a 32-bit type (S14); no division by a type width or element count and no trapping `count - c` in the lowering (S15); a function without any input bit is refused before the circuit is built (S16); a re-typed match / if / array literal adopts its branches' / elements' type only when they all agree (S17); an untyped range can be re-typed for signed as well as unsigned element types (S18). S19: the split of a single array parameter into one party per element covers all three spellings of an array type.")
 LEVEL_NOTE = ("Trusted: rustc MIR. The S2 table (which children share the node's type) was filled by reading the language documentation; "
               "it names children by their position in the ExprEnum variant.")
 EXPLANATION = "Functions analysed: TypedProgram::compile_with_constants (parameter wiring, builder construction, build call), check::constrain_type."
